@@ -161,6 +161,10 @@ def State.update (pinv : Nat → Mat → LMat) (s : State) (res : Mat) : State :
   let adm := admittance s.adj res
   { s with res := res, adm := adm, R := toFun (pinv s.n (laplacian s.n adm)), store := none }
 
+/-- `net.adjacency = A'` — the setter inherited from `Network`: the number of nodes and the links
+change; nothing of `ResNetwork` (resistances, admittance, `R`, the store) is recomputed -/
+def State.reassign (s : State) (n' : Nat) (adj' : Adj) : State := { s with n := n', adj := adj' }
+
 /-- `__init__`: `update_resistances(resistances)`, then `_effective_resistances = None` -/
 def State.init (pinv : Nat → Mat → LMat) (n : Nat) (adj : Adj) (res : Mat) : State :=
   State.update pinv { n := n, adj := adj, res := res, adm := fun _ _ => 0,
